@@ -34,3 +34,8 @@ Proof. reflexivity. Qed.
 Theorem nisp2sec_responses_masked CS r c x : 321 <= ln CS + MASK ->
   2 ^ (ln CS + MASK - 1) <= r -> 0 < c < 2 ^ 256 -> 2 ^ 64 <= (r + c * x) / c - x.
 Proof. intros Hk Hr Hc. eapply mask_ok; eassumption. Qed.
+
+(* C16 (F11): the upper bound on D_1 that the larger-interval prover accepts is, in the source, the same expression as the
+   verifier's and the model's li_upper (regenerated on every run) *)
+Theorem li_bounds_tied : li_bounds_agree = true.
+Proof. reflexivity. Qed.
